@@ -34,7 +34,7 @@ def gen_skk(rng):
 def gen_note(rng):
     """A well-formed notes line together with the dictionary lines the converter must emit (reference semantics)."""
     head = rnd(rng, KANA[1:60], 1, 3)
-    kind = rng.below(9)
+    kind = rng.below(10)
     stem = rnd(rng, KANJI, 1, 2)
     exp = []
     okl = ""
@@ -42,7 +42,15 @@ def gen_note(rng):
     # readings that end in the very kana the dictionary form adds (むだ + だ, かわい + い, かく + く) are the coincidences a
     # converter that strips "the ending" by value instead of by position gets wrong
     echo = rng.below(3) == 0
-    if kind == 8:      # adjective with class okuri
+    if kind == 9:      # base godan verb with NO okuri specification at all (neither (-xx) nor [..])
+        row = rng.pick(list(GODAN))
+        okl = GODAN[row]
+        if echo:
+            head = head + GODAN_U[row]
+        body = "%s;∥<base>%s行五段" % (stem, row)
+        exp = [(head, stem, "%s行五段" % row)]
+        meta.update(base_verb=True, letter=okl)
+    elif kind == 8:      # adjective with class okuri
         okl = "i"
         if echo:
             head = rng.pick(["", head]) + "い" * (1 + rng.below(2))
@@ -226,7 +234,7 @@ def run(run, replay=None):
     run.cov.update({"evaluations": len(lines) + len(nlines) + len(plines) + len(wl),
                     "distinct_nontrivial": len({l for l, _ in skk}) + len({l for l, _, _ in notes}),
                     "rule": "well-formed SKK-JISYO lines (reading, optional okuri letter, 1–3 candidates with/without annotations) through "
-                            "the four parsers on both sides; well-formed notes lines of 9 kinds (a third of them with a reading that ends in the kana of the dictionary-form ending) (all noun tags, base godan / ichidan verbs, "
+                            "the four parsers on both sides; well-formed notes lines of 10 kinds (a third of them with a reading that ends in the kana of the dictionary-form ending) (all noun tags, base godan / ichidan verbs, "
                             "fixed and class okuri, affix classes, derived entries, multi-speech entries with in-entry notes) against a "
                             "reference semantics; odd and arbitrary Unicode lines for totality; every emitted line re-read by the real "
                             "dictionary reader; okuri row of base verbs. non-trivial = well-formed line; distinct by line",
